@@ -4,5 +4,5 @@ Import ListNotations.
 
 Theorem C34_complex_false_sound : forall rho st A, assum_of st = Ok A -> osat rho st ->
   forall e v, keys_ok e = true -> is_complex A e = QT TF -> denote rho e = Some v -> ~ v_complex v.
-Proof. exact complex_false_final. Qed.
+Proof. intros rho st A _ _. exact (complex_false_final rho A). Qed.
 Print Assumptions C34_complex_false_sound.
